@@ -256,7 +256,60 @@ pub fn compile(req: &Value) -> Value {
     }
     Value::Object(res)
 }
-pub fn threads(req: &Value) -> Value { json!({"id": req["id"], "todo": true}) }
+// ---------------------------------------------------------------------------------------------
+// C19: K threads of one process compile and run their jobs at the same time.
+pub fn threads(req: &Value) -> Value {
+    use mimium_lang::interner::verif as iv;
+    let jobs: Vec<Value> = req["jobs"].as_array().cloned().unwrap_or_default();
+    let k = jobs.len();
+    iv::set_perturbation(req["perturb"].as_u64().unwrap_or(0));
+    let log = req["log"].as_bool().unwrap_or(false);
+    if log {
+        iv::start_log();
+    }
+    // the process environment variable the macro stage publishes its file in (C19: restored afterwards)
+    unsafe { std::env::remove_var("MIMIUM_CURRENT_MACRO_FILE") };
+    let barrier = std::sync::Arc::new(std::sync::Barrier::new(k));
+    let handles: Vec<_> = jobs
+        .into_iter()
+        .enumerate()
+        .map(|(i, job)| {
+            let barrier = barrier.clone();
+            std::thread::Builder::new()
+                .stack_size(64 << 20)
+                .spawn(move || {
+                    iv::set_thread_tag(i as u64 + 1);
+                    barrier.wait();
+                    let loc = std::cell::RefCell::new(String::new());
+                    let r = catch_unwind(AssertUnwindSafe(|| compile(&job)));
+                    match r {
+                        Ok(v) => v,
+                        Err(e) => {
+                            let _ = &loc;
+                            json!({"id": job["id"], "thread_panic": crate::panic_msg(e),
+                                   "loc": crate::LAST_PANIC_LOC.with(|l| l.borrow().clone())})
+                        }
+                    }
+                })
+                .unwrap()
+        })
+        .collect();
+    let results: Vec<Value> = handles
+        .into_iter()
+        .map(|h| h.join().unwrap_or_else(|_| json!({"thread_panic": "thread died"})))
+        .collect();
+    iv::set_perturbation(0);
+    let events: Vec<Value> = if log {
+        iv::take_log()
+            .into_iter()
+            .map(|e| json!({"seq": e.seq, "t": e.thread, "op": e.op, "id": e.id, "d": format!("{:016x}", e.digest), "fresh": e.fresh}))
+            .collect()
+    } else {
+        vec![]
+    };
+    let env_after = std::env::var_os("MIMIUM_CURRENT_MACRO_FILE").map(|v| v.to_string_lossy().to_string());
+    json!({"id": req["id"], "threads": results, "events": events, "env_after": env_after})
+}
 // ---------------------------------------------------------------------------------------------
 // C18: generated Rust. emit_rust -> rustc --edition=2024 -> run with a host that supplies `now`
 // (in samples) and `samplerate` the way the audio driver does.
